@@ -305,6 +305,7 @@ _EDITS = [
  ("C20", "roundtrip_closed_forms", "multipass_roundtrip (MultiPassNTU inverts MultiPassEff for every pass count: balanced streams for any effectiveness >= 0, unbalanced streams wherever the single-pass ratio is positive and the expression is defined - real powers), roundtrip_closed_forms"),
  ("C02", "tz_balance", "utility_net_of_closure (the listed hot and cold utility duties differ from cold minus hot stream duty by at most tol whenever the allocation closes within tol on both sides, C03), tz_balance"),
  ("C03", "covering_ladder_closes_hot (and hot_cover_exists", "ladder_with_cover_closes_hot / _cold (ANY ladder that contains, anywhere in the processing order, a utility whose shifted band lies at or above - below, on the cooling side - the level where the load profile starts to change closes the allocation within tol; with hot_cover_exists this closes the hot side for every prepared utility list whose heating demand starts at or below HU_T_min), covering_ladder_closes_hot (and hot_cover_exists"),
+ ("C15", "plus equal balanced spans, finiteness, cost laws on the record.", "plus equal balanced spans, finiteness, cost laws on the record, and - for zones served by the two default utilities with one pinch or a threshold - the reported exchanger count against the Euler count (streams present plus utilities carrying duty minus one per region)."),
  ("C18", "Oracle: 10 refrigerants x random",
   "Oracle: refrigerants (half from 10 common ones, half from every fluid of the property library with a two-phase range above -60 C, 90+ fluids) x random"),
 ]
